@@ -82,7 +82,7 @@ void Dune::ParameterTreeParser::readINITree(std::istream& in,
 {
   std::string prefix;
   std::set<std::string> keysInFile;
-  while(!in.eof())
+  while(in.good())
   {
     std::string line;
     getline(in, line);
@@ -120,7 +120,7 @@ void Dune::ParameterTreeParser::readINITree(std::istream& in,
             value=value.substr(1);
             while (rtrim(value).empty() || rtrim(value).back()!=quote)
             {
-              if (! in.eof())
+              if (in.good())
               {
                 std::string l;
                 getline(in, l);
@@ -150,6 +150,9 @@ void Dune::ParameterTreeParser::readINITree(std::istream& in,
     }
   }
 
+  // a source that cannot be read (e.g. a directory, an I/O error) is reported, not treated as end of input
+  if (in.bad())
+    DUNE_THROW(Dune::IOError, "Error while reading from " << srcname);
 }
 
 void Dune::ParameterTreeParser::readOptions(int argc, char* argv [],
